@@ -225,70 +225,115 @@ def check_id_tables(chk, sem, cls_of_id, ids):
                detail={"missing": sorted(set(ids) - seen), "extra": sorted(seen - set(ids))[:20]})
 
 
-def run_eq(chk, F):
-    vs = variants(F)
-    # ---- N4 PartialEq
-    chk.rule("N4.eq", floor=30, doc="every pair declared equal is same-variant-same-parameter or one canonical class")
-    chk.rule("N4.reflexive", floor=11, doc="every variant compares equal to itself")
-    b = F.one(name="eq", trait_is="std::cmp::PartialEq", self_is=SELF_CODES)
-    S = ("deref", ("arg", 1, "self"))
-    O = ("deref", ("arg", 2, "other"))
-    refl = set()
-    n = 0
-    for p in mir.walk(b):
-        if p.end[0] != "return":
-            continue
-        spec = {}
-        for who, subj in (("self", S), ("other", O)):
-            var = None
-            par = None
-            for (t, op, v) in p.constraints:
-                if t == ("discr", subj) and op == "==":
-                    var = vs[v]["name"]
-                elif t[0] == "field" and t[1][0] == "variant" and t[1][1] == subj and op == "==":
-                    par = v
-            spec[who] = (var, par)
-        r = p.ret
-        n += 1
-        kid = "%s=%s:%s" % (spec["self"], spec["other"], mir.fmt(r)[:24])
-        if r == ("const", True, "bool"):
-            (v1, p1), (v2, p2) = spec["self"], spec["other"]
-            ok = v1 is not None and v2 is not None
-            if ok:
-                f1, fld1 = cc.VARIANT[v1]
-                f2, fld2 = cc.VARIANT[v2]
-                ok = (fld1 is None or p1 is not None) and (fld2 is None or p2 is not None) and cc.canon(f1, p1) == cc.canon(f2, p2)
-            chk.expect("N4.eq", kid, ok, "eq declares %s and %s equal but they are not one canonical class" % (spec["self"], spec["other"]),
-                       sample={"self": spec["self"], "other": spec["other"]})
-            if ok and v1 == v2:
-                refl.add(v1)
-        elif isinstance(r, tuple) and r[0] == "ret":
-            ev = [e for e in p.calls() if e[3] == r]
-            a = list(ev[0][2]) if ev else []
-            for i in range(len(a)):
-                while isinstance(a[i], tuple) and a[i][0] == "ref":
-                    a[i] = a[i][1]
-            ok = (len(a) == 2 and a[0][0] == "field" and a[1][0] == "field" and a[0][2] == a[1][2]
-                  and a[0][1][0] == "variant" and a[1][1][0] == "variant" and a[0][1][2] == a[1][1][2]
-                  and {a[0][1][1], a[1][1][1]} == {S, O} and ev[0][1].endswith("PartialEq::eq"))
-            chk.expect("N4.eq", kid, ok, "eq compares %s on this path, not the same field of the same variant of both operands"
-                       % [mir.fmt(x) for x in a])
-            if ok:
-                refl.add(a[0][1][2])
-        elif isinstance(r, tuple) and r[0] == "binop" and r[1] == "Eq":
-            a = [r[2], r[3]]
-            ok = (a[0][0] == "field" and a[1][0] == "field" and a[0][2] == a[1][2] and a[0][1][0] == "variant"
-                  and a[1][1][0] == "variant" and a[0][1][2] == a[1][1][2] and {a[0][1][1], a[1][1][1]} == {S, O})
-            chk.expect("N4.eq", kid, ok, "eq compares %s" % [mir.fmt(x) for x in a])
-            if ok:
-                refl.add(a[0][1][2])
-        elif r == ("const", False, "bool"):
-            chk.ok("N4.eq", kid)
-        else:
-            chk.bad("N4.eq", kid, "eq returns %s on this path" % mir.fmt(r))
-    for idx, v in sorted(vs.items()):
-        chk.expect("N4.reflexive", v["name"], v["name"] in refl, "Codes::%s never compares equal to itself" % v["name"])
+def harvest_consts(F, body, seen=None, out=None, depth=0):
+    """integer constants (switch targets, literal operands) of a body and of the crate-private functions it calls"""
+    seen = set() if seen is None else seen
+    out = set() if out is None else out
+    if body["path"] in seen or depth > 4:
+        return out
+    seen.add(body["path"])
 
+    def scan(o):
+        if isinstance(o, dict):
+            if o.get("k") == "const" and isinstance(o.get("value"), int) and not isinstance(o.get("value"), bool):
+                out.add(int(o["value"]))
+            if o.get("k") == "const" and "fn" in o:
+                for cb in F.by_path.get(o["fn"], []):
+                    if cb.get("blocks") and str(cb.get("vis") or "").startswith("Restricted"):
+                        harvest_consts(F, cb, seen, out, depth + 1)
+            for v in o.values():
+                scan(v)
+        elif isinstance(o, (list, tuple)):
+            for v in o:
+                scan(v)
+    for bl in body["blocks"]:
+        scan(bl["stmts"])
+        t = bl["term"]
+        scan(t)
+        if t.get("k") == "switch":
+            for v, _ in t["targets"]:
+                out.add(int(v))
+    return out
+
+
+def run_eq(chk, F):
+    """N4, decided by interpreting PartialEq::eq (helpers included, whatever the shape of its arms) on every pair of variants and
+    every pair of parameter cells.  The cells are the constants the code mentions, as singletons, and the gaps between them; on
+    a pair of values from one gap the comparison of the two parameters is split relationally (equal / different)."""
+    import ivl
+    from ivl import AI, Agg, Ref, Frame
+    vs = variants(F)
+    chk.rule("N4.eq", floor=30, doc="PartialEq::eq interpreted on every pair (variant, parameter cell) x (variant, parameter cell): every pair it declares equal is one canonical class (identical codewords)")
+    chk.rule("N4.reflexive", floor=11, doc="every code compares equal to itself (every variant, every parameter cell)")
+    b = F.one(name="eq", trait_is="std::cmp::PartialEq", self_is=SELF_CODES)
+    consts = sorted(c for c in (harvest_consts(F, b) | {0, 1, 2, 3, 4, 8, 16}) if 0 <= c < (1 << 64))
+    UMAX = (1 << 64) - 1
+    cells = []
+    prev = -1
+    for c in consts:
+        if c - 1 > prev:
+            cells.append((prev + 1, c - 1))
+        cells.append((c, c))
+        prev = c
+    if prev < UMAX:
+        cells.append((prev + 1, UMAX))
+
+    def value(it, idx, v, cell, mode):
+        flds = []
+        for f in v["fields"]:
+            ty = f["ty"] if f["ty"] in ivl.TY else "usize"
+            if mode == "input":
+                flds.append(it.input(ty))
+            elif mode == "neq":
+                flds.append(AI(ty, cell[0], cell[1], None, None, ("neq",)))
+            else:
+                flds.append(AI(ty, cell[0], cell[1]))
+        h = Frame({"path": "input"}, {})
+        h.locals[0] = Agg("adt", CODES_ADT, v["name"], idx, flds)
+        return Ref(h, 0, ())
+
+    def evaluate(i1, v1, c1, i2, v2, c2, mode2):
+        it = ivl.Interp(F, c1[0], c1[1])
+        r = it.call_body(b, [value(it, i1, v1, c1, "input"), value(it, i2, v2, c2, mode2)], {}, 0)
+        return r.const() if isinstance(r, AI) else None
+
+    def canon_cell(v, cell):
+        fam, field = cc.VARIANT[v["name"]]
+        if not field:
+            return cc.canon(fam, None)
+        return cc.canon(fam, cell[0]) if cell[0] == cell[1] else ("gap", v["name"], cell)
+    refl = {}
+    undecided = []
+    for i1, v1 in sorted(vs.items()):
+        for c1 in (cells if v1["fields"] else [(0, 0)]):
+            for i2, v2 in sorted(vs.items()):
+                for c2 in (cells if v2["fields"] else [(0, 0)]):
+                    same_gap = i1 == i2 and c1 == c2 and c1[0] != c1[1] and bool(v1["fields"])
+                    runs = [("input", "equal"), ("neq", "different")] if same_gap else [("plain", None)]
+                    for mode2, rel in runs:
+                        what = "%s%s = %s%s%s" % (v1["name"], list(c1) if v1["fields"] else "", v2["name"], list(c2) if v2["fields"] else "",
+                                                  " (parameters %s)" % rel if rel else "")
+                        try:
+                            r = evaluate(i1, v1, c1, i2, v2, c2, mode2)
+                        except (ivl.Undecided, ivl.Unsupported, ivl.Panic) as ex:
+                            undecided.append("%s: %s" % (what, ex))
+                            continue
+                        if r is None:
+                            undecided.append("%s: not a boolean constant" % what)
+                            continue
+                        identical = (i1 == i2 and c1 == c2 and rel != "different") if (same_gap or (i1 == i2 and c1 == c2 and c1[0] == c1[1])) else \
+                            (canon_cell(v1, c1) == canon_cell(v2, c2) and canon_cell(v1, c1)[0] != "gap")
+                        if i1 == i2 and c1 == c2 and rel != "different":
+                            refl.setdefault(v1["name"], []).append((c1, bool(r)))
+                        if r:
+                            chk.expect("N4.eq", what, identical, "eq declares %s equal, but these codes do not have identical codewords" % what,
+                                       sample={"pair": what} if c1[0] == c1[1] and c2[0] == c2[1] else None)
+    chk.expect("N4.eq", "decided", not undecided, "PartialEq::eq cannot be decided by the interpreter on: %s" % "; ".join(undecided[:4]),
+               detail={"undecided": undecided[:20]})
+    for idx, v in sorted(vs.items()):
+        bad = [c for c, r in refl.get(v["name"], []) if not r]
+        chk.expect("N4.reflexive", v["name"], v["name"] in refl and not bad,
+                   "Codes::%s does not compare equal to itself for the parameter cell(s) %s" % (v["name"], bad[:3]))
 
 
 def run(chk, F, tier):
